@@ -31,6 +31,7 @@ class C09(EvalFamProp):
         return [
             D(M({'a': X('a')})), D(M({'a': X('b'), 'b': X('a')})), D(M({'a': X('b'), 'b': X('c'), 'c': X('a')})),        # D09
             D(M({'a': M({'b': X('a')})})), D(M({'a': X('nowhere')})),
+            D(M({'a': Q([S(1), S(2)]), 'r': X('a[-3]')})), D(M({'a': Q([]), 'r': X('a[-1]'), 's': X('a[0]')})), D(M({'a': Q([S(1), S(2)]), 'r': X('a[-2]'), 's': X('a[2]')})),
             D(M({'r': X('t.x'), 't': M({'x': Q([S(1)]), 'y': X('r')}), 'u': X('t.y'), 'v': Q([X('u'), X('t')])})),
             D(M({'c': M({}, tag={'k': 'call', 'f': 'rec.f'}), 'p': X('c'), 'q': X('p'), 'l': Q([X('q'), X('c')])})),
         ]
